@@ -81,3 +81,14 @@ P('C05', 'other',
   'its result is the commission unmodified; S4 PercentFeeModel = (commission_pct + tax_pct)*|consideration| on its single path (hence '
   'non-negative for non-negative rates and sign-independent), ZeroFeeModel = 0, rates are the constructor arguments. Float rounding is not decided.')
 TECHNIQUE['C05'] = 'static analysis: value-flow / provenance of price, time stamp and commission through symbolic path summaries; canonical fee formulas'
+
+P('C06', 'other',
+  'Static rules over symbolic summaries of CSVDailyBarDataSource.get_bid/get_ask, the bar->bid/ask converter and the data handler (pandas '
+  'semantics trusted; the arguments and the shape of the pipeline are checked). Decided: S1 the only index lookup is one get_indexer([dt], '
+  'method pad/ffill) on the asset frame\'s index, the value returned is the Bid/Ask column at that row, unmodified; S2 the indexer result '
+  'reaches .iloc only on paths that excluded the -1 sentinel, and a NaN path exists; S3 the bar frame is sorted first, missing cells are '
+  'filled by exactly one forward fill while rows are in time order (tabled reshape idiom or an explicit sort before the fill), never by '
+  'bfill/interpolate, and the result is indexed by timestamp and sorted; S4 Open rows +14:30, Close rows +21:00; S5 Bid = Ask = Price, '
+  'adjusted open = adj close/close*open; S6 accessors are pure, read only the frames built once in the constructor, the class keeps identity '
+  'equality (lru_cache key), the handler returns the source value unmodified at its own dt. Not decided: pandas internals.')
+TECHNIQUE['C06'] = 'static analysis: API-argument and pipeline-shape rules on symbolic method chains, sentinel-guard path rule, constant tables, effect/ownership scans'
